@@ -106,7 +106,7 @@ class TlcResult:
 _RE_STATES = re.compile(r"(\d+) states generated, (\d+) distinct states found")
 _RE_DEPTH = re.compile(r"The depth of the complete state graph search is (\d+)")
 _RE_INV = re.compile(r"Error: Invariant (\S+) is violated")
-_RE_PROP = re.compile(r"Error: (Temporal properties were violated|Action property (\S+) is violated)")
+_RE_PROP = re.compile(r"Error: (Temporal propert(?:y|ies) (\S+ )?w(?:as|ere) violated|Action property (\S+) is violated)")
 
 
 def run_tlc(module, cfg, workdir_tag, workers=8, timeout=900, env=None, deque=False, xmx=None,
@@ -187,7 +187,7 @@ def run_tlc(module, cfg, workdir_tag, workers=8, timeout=900, env=None, deque=Fa
         res.violated = m.group(1)
     m = _RE_PROP.search(res.raw)
     if m and not res.violated:
-        res.violated = m.group(2) or "temporal"
+        res.violated = (m.group(2) or m.group(3) or "temporal").strip()
     if "Model checking completed. No error has been found." in res.raw or (
             simulate and "Error:" not in res.raw and p.returncode == 0):
         res.ok = True
@@ -230,7 +230,10 @@ def validate_trace(trace_module, cfg, trace_path, workdir_tag, timeout=600, extr
     verdict = None
     for o in res.prints:
         if isinstance(o, dict) and "trace" in o:
-            verdict = o
+            # a verdict printed during the search (post = False) wins over the one of the POSTCONDITION
+            if verdict is None or verdict.get("post", False) or not o.get("post", False):
+                if verdict is None or verdict.get("post", False):
+                    verdict = o
     if verdict is None:
         sys.stderr.write(res.raw[-4000:])
         raise ToolError("trace validation produced no verdict (%s/%s)" % (trace_module, cfg))
